@@ -1,4 +1,5 @@
 import Zeno.Proofs.Stages
+import Zeno.Model.Scope
 import Zeno.Gen.Stages
 import Zeno.Gen.Item
 import Zeno.Gen.Archiver
@@ -17,11 +18,11 @@ open Zeno Zeno.Model.Item Zeno.Model.Stages
 abbrev S : SF := Zeno.Gen.Stages.facts
 abbrev I : IF := Zeno.Gen.Item.facts
 
-/-- the shapes of `preprocess` the model mirrors, the default excluded hosts, and the only fetch site
+/-- the shapes of `preprocess` the model mirrors (the include / exclude tests themselves are translated: `c05_scope_tests_translated`), the default excluded hosts, and the only fetch site
 fetching nothing but PreProcessed nodes -/
 theorem facts_ok :
     (S.preWorksAtMaxDepth && S.prePanicsOnNonFresh && S.preSeedNormErrorFails && S.preChildNormErrorRemoves &&
-     S.preIncludeShape && S.preExcludeShape && S.preIncludeBeforeExclude && S.preRejectRemovesChildCompletesSeed &&
+     S.preRejectRemovesChildCompletesSeed &&
      S.preEmptyPathChildRemoved && S.preDedupeThenSeencheckThenRequests && S.preNoWorkCompletesSeed && S.preOnlyFreshGetRequests &&
      S.defaultExcludedHosts == ["archive.org", "archive-it.org"] &&
      Zeno.Gen.Archiver.facts.onlyPreProcessedFetched && Zeno.Gen.Archiver.facts.workAtMaxDepth) = true := by decide
@@ -51,6 +52,24 @@ theorem c05_scope_meaning (cfg : Cfg) (r : NormRes) (h : passesFilters cfg r = t
   · exact Or.inl ⟨h1, h2⟩
   · exact Or.inr (Or.inl h1)
   · exact Or.inr (Or.inr h1)
+
+/-! ### the scope tests as written now
+
+`S.scopeGuards` = the places where the per-item loop of `preprocess()` rejects an item because of the include / exclude configuration,
+translated from the source on every run (the conjunction of the enclosing conditions of each). -/
+
+open Zeno.Model.Scope in
+/-- the translated tests reject exactly what the property says is out of scope, for **every** valuation of what they look at (are include
+filters configured; does the host / text contain an include or exclude entry; does an exclusion regex match) … -/
+theorem c05_scope_tests_translated (v : SAtom → Bool) : rejectsBy S.scopeGuards v = specRejects v := by
+  have h : ∀ b1 b2 b3 b4 b5 b6 b7, rejectsBy S.scopeGuards (valuation b1 b2 b3 b4 b5 b6 b7) = specRejects (valuation b1 b2 b3 b4 b5 b6 b7) := by
+    decide
+  rw [valuation_eta v]; exact h _ _ _ _ _ _ _
+
+open Zeno.Model.Scope in
+/-- … so the model's scope predicate, which `c05_request_only_in_scope` is about, is the negation of "some translated test rejects" -/
+theorem c05_scope_is_the_code (cfg : Cfg) (r : NormRes) : passesFilters cfg r = !rejectsBy S.scopeGuards (atomsOf cfg r) := by
+  rw [c05_scope_tests_translated, passes_iff]
 
 /-- the two archive hosts are excluded by default -/
 theorem c05_default_excludes : S.defaultExcludedHosts = ["archive.org", "archive-it.org"] := by decide
